@@ -58,6 +58,8 @@ DEFS = [
     struct("SRename", [field("a", U8, rename="x"), field("b", BOOL, rename="a"), field("long_name", I8, rename="long_name2")]),
     struct("SRenameCamel", [field("my_a", U8, rename="my_a"), field("my_b", BOOL)], rename_all="camelCase"),
     struct("SDeny", [field("a", U8), field("b", ("opt", BOOL))], deny="default"),
+    struct("SRenameMore", [field("a", U8, rename="alpha", default="trait"), field("b_b", BOOL, rename="beta", default=("expr", "true", rv("bool", b=True))),
+                           field("c_c", I8)], rename_all="camelCase", deny="default"),
     struct("SDefault", [field("a", U8), field("b", U8, default="trait"), field("c", U8, default=("expr", "7", num_rv(7))),
                         field("d", ("opt", U8))]),
     struct("SSkipMid", [field("a", U8), field("sk", STR, skip=True), field("b", BOOL)], deny="default"),
@@ -78,7 +80,8 @@ DEFS = [
     enum("ETag", [variant("A"), variant("B", [field("x", U8), field("y", BOOL)]), variant("C", [field("x", STR)])], tag="type"),
     enum("ETagCamel", [variant("UnitVar"), variant("NamedVar", [field("my_field", U8)]),
                        variant("Other", [field("my_field", U8), field("plain", BOOL)], rename_all="camelCase"),
-                       variant("X", [field("aB", U8)], rename="custom", rename_all="lowercase")],
+                       variant("X", [field("aB", U8)], rename="custom", rename_all="lowercase"),
+                       variant("TailVar", [field("tail_field", U8), field("other_one", BOOL, default="trait")])],
          tag="kind", rename_all="camelCase"),
     enum("ETagDeny", [variant("Ping", []), variant("V", [field("a", U8)]), variant("U")], tag="t", deny="default"),
     enum("ETagCollide", [variant("V", [field("x", U8)]), variant("W", [field("x", U8, default="trait"), field("y", BOOL)])], tag="x"),
@@ -122,7 +125,7 @@ ENTRIES = [
     ("opt", ("vec", U8)), ("box", ("vec", ("box", U8))),
     ("phantom",),
     ("ref", "SPlain"), ("ref", "SThree"), ("ref", "SCamel"), ("ref", "SLower"), ("ref", "SRename"), ("ref", "SRenameCamel"),
-    ("ref", "SDeny"), ("ref", "SDefault"), ("ref", "SSkipMid"), ("ref", "SSkipFirst"), ("ref", "SSkipLast"), ("ref", "SSkipDefault"),
+    ("ref", "SDeny"), ("ref", "SRenameMore"), ("ref", "SDefault"), ("ref", "SSkipMid"), ("ref", "SSkipFirst"), ("ref", "SSkipLast"), ("ref", "SSkipDefault"),
     ("ref", "SMix"), ("ref", "SEmpty"), ("ref", "SEmptyLoose"), ("ref", "SRaw"), ("ref", "SNested"), ("ref", "SOpt"),
     ("ref", "EUnit"), ("ref", "EUnitLower"), ("ref", "EUnitCamel"), ("ref", "ETag"), ("ref", "ETagCamel"), ("ref", "ETagDeny"),
     ("ref", "ETagCollide"), ("ref", "ETagRaw"), ("ref", "EOne"), ("ref", "SWithEnums"),
